@@ -1403,3 +1403,20 @@ def run(ctx):
             ctx.sample({'case': meta[i], 'coq': cases[i][:300]})
     finally:
         uninstall_recorder()
+
+
+def replay(ctx, r):
+    """Re-run the grid with the seed and tier recorded in the replay file; the same parameter tuple is regenerated
+    and re-evaluated (the generator is deterministic in (seed, tier)).  Exit code as for a normal run."""
+    import random
+    ctx.seed = int(r.get('seed', ctx.seed))
+    ctx.tier = r.get('tier', ctx.tier)
+    ctx.rng = random.Random(ctx.seed)
+    print('replaying with seed=%d tier=%s; recorded: %s' % (ctx.seed, ctx.tier, r.get('what') or r.get('no_longer_checks')))
+    run(ctx)
+    rc = ctx.finish()
+    want = r.get('signature')
+    if want:
+        again = [v for v in ctx.violations if v['signature'] == want]
+        print('recorded violation %s' % ('REPRODUCED: ' + json.dumps(again[0]['witness'])[:400] if again else 'did not reproduce'))
+    return rc
